@@ -277,7 +277,7 @@ def plan(tier):
         t.append({'kind': 'shape', 'i': i, 'dev': 1 if tier == 'quick' else 2})
     fams = [(2, 1, 'A04', 0, 1), (2, 2, 'A04', 1, 1), (3, 2, 'A04S', 1, 0)]
     if tier == 'thorough':
-        fams = [(2, 1, 'A04', 0, 2), (2, 2, 'A04', 1, 1), (3, 2, 'A04', 1, 1), (2, 3, 'A04S', 2, -1), (3, 3, 'A04S', 2, 0)]
+        fams = [(2, 1, 'A04', 0, 2), (2, 2, 'A04', 1, 1), (3, 2, 'A04', 1, 1), (2, 3, 'A04S', 2, -1), (3, 3, 'A04S', 2, -2)]
     for n, k, a, split, dev in fams:
         for tk in space.tasks(n, k, ALPHAS[a], split):
             tk.update(kind='fam', alpha=a, dev=dev)
@@ -296,7 +296,7 @@ def describe(tier):
         'FailedValidationError tolerated only when two gates of the argument are functionally equivalent. distinct = distinct '
         '(gates before, gates after).',
         'bounds': {'quick': '18 designed shapes (4 bases x 8 parameter sets, 1 deviation for XAIG with direct/pool/validation; the two largest shapes with max_subcircuit_size<=3); F(2,1,A04), F(2,2,A04) 1 deviation; F(3,2,A04S) default environment',
-                   'thorough': 'designed shapes 2 deviations; F(2,1) 2 deviations; F(2,2,A04), F(3,2,A04) 1 deviation; F(2,3,A04S) default environment + set-order deviations, F(3,3,A04S) default environment'}[tier],
+                   'thorough': 'designed shapes 2 deviations; F(2,1) 2 deviations; F(2,2,A04), F(3,2,A04) 1 deviation; F(2,3,A04S) default environment + set-order deviations, F(3,3,A04S) default environment (last-gate output, XAIG)'}[tier],
         'exhaustive': True,
         'assumptions': ['vsat is sound and complete; the cut shim enumerates admissible families (vmc/shims); vmc.refmodel evaluator'],
     }
@@ -330,6 +330,10 @@ def run_task(task, acc):
     alpha = ALPHAS[task['alpha']]
     n, k = task['n'], task['k']
     for gates in space.enum_gates(n, k, alpha, space.prefix_from_task(task)):
+        if task['dev'] == -2:
+            # largest family: last-gate output, XAIG, direct solver call, default environment
+            check_circuit(acc, n, gates, (n + k - 1,), basis_arg('XAIG'), dict(PARAM_SETS['direct']), 0)
+            continue
         for outs in _policies(n, k, gates):
             for b, pname in (('XAIG', 'direct'), ('AIG', 'valid'), ('FULL', 'pool')):
                 if task['dev'] == -1:
